@@ -14,6 +14,7 @@ Reading guide
 * `etreeIterPaths e`       : transcription of `etree.py :: etree_iter_paths`
 -/
 import EPV.Lemmas.NodePath
+import EPV.Lemmas.NodePathEtree
 namespace EPV.C14
 open EPV.NodePath
 
@@ -26,7 +27,12 @@ parent-less element) and every node `r` of it — element, text, comment, proces
 attribute, namespace — evaluating the generated path from the root selects exactly `[r]`. -/
 theorem path_selects_self (top : Node) (r : Ref) (steps : List Step) (hw : top.wf = true)
     (hp : pathOf top r = some steps) : evalSteps top steps = [r] :=
-  evalSteps_pathOfWith sameKind sameKind_eq_test top r steps hw hp
+  evalSteps_pathOfWith sameKind top r steps hw (pathSafe_of_agree sameKind sameKind_eq_test r.path top) hp
+
+/-- For element, text, comment and PI nodes the well-formedness hypothesis is not needed. -/
+theorem path_selects_self_node (top : Node) (is : List Nat) (steps : List Step)
+    (hp : pathOf top ⟨is, .self⟩ = some steps) : evalSteps top steps = [⟨is, .self⟩] :=
+  evalSteps_pathOfWith_self sameKind top is steps (pathSafe_of_agree sameKind sameKind_eq_test is top) hp
 
 /-- Distinct nodes have distinct paths (corollary of `path_selects_self`). -/
 theorem path_injective (top : Node) (r₁ r₂ : Ref) (steps : List Step) (hw : top.wf = true)
@@ -45,5 +51,121 @@ example :
     t.wf = true ∧ pathOf t ⟨[0, 7], .self⟩ = some [.child ⟨"", "r"⟩ 1, .pi "x" 2] ∧
     evalSteps t [.child ⟨"", "r"⟩ 1, .pi "x" 2] = [⟨[0, 7], .self⟩] ∧
     pathOf t ⟨[0], .ns 1⟩ = some [.child ⟨"", "r"⟩ 1, .ns "p"] := by decide
+
+/-- The generated path is literally the one F&O 3.1 §14.6 prescribes for `fn:path` (element
+position among like-named element siblings, PI position among like-named PI siblings, text /
+comment position among text / comment siblings, `@name`, `namespace::prefix`). -/
+theorem path_eq_spec (top : Node) (r : Ref) : pathOf top r = specPath top r :=
+  pathOf_eq_spec top r
+
+/-- Hence the path prescribed by F&O selects exactly the node, too (consistency of the two
+halves of the specification). -/
+theorem spec_path_selects_self (top : Node) (r : Ref) (steps : List Step) (hw : top.wf = true)
+    (hp : specPath top r = some steps) : evalSteps top steps = [r] :=
+  path_selects_self top r steps hw (by rw [path_eq_spec]; exact hp)
+
+/-- The recursion of the Python properties: the path of a child is the path of its parent plus
+one step whose position is `parent.get_child_position(child)`. -/
+theorem path_parent_step (top n c : Node) (is : List Nat) (i : Nat) (st : List Step)
+    (hd : descend top is = some n) (hc : n.kids[i]? = some c) (hp : pathOf top ⟨is, .self⟩ = some st) :
+    pathOf top ⟨is ++ [i], .self⟩ = some (st ++ [childStep c (getChildPosition n.kids i c)]) := by
+  have hpt : pathTo top is = some st := by
+    simp only [pathOf, pathOfWith, hd] at hp
+    cases h : pathToWith sameKind top is with
+    | none => simp [h] at hp
+    | some s => simp only [h, Option.some.injEq] at hp; subst hp; exact h
+  have h2 := pathTo_snoc is top n c i st hd hc hpt
+  simp only [pathTo] at h2
+  simp only [pathOf, pathOfWith, h2, descend_snoc top is i n c hd hc]
+
+/-- `fn:path` on a tree whose root is a parent-less element (`Q{…}root()` + `item.path` with the
+root's own path cut off): the absolute path in the dummy document is the root element's step
+followed by the relative path, so cutting the prefix yields `pathOf e`, to which
+`path_selects_self` applies with `top := e` (evaluation starts at `root()`). -/
+theorem fn_path_fragment (e : Node) (is : List Nat) (sel : Sel) :
+    pathOf (docNode [e]) ⟨0 :: is, sel⟩ = (pathOf e ⟨is, sel⟩).map (childStep e 1 :: ·) :=
+  pathOf_dummy_doc e is sel
+
+/-- `etree_iter_paths` and `node.path` give the same steps: every pair `(node, path)` yielded for
+the tree rooted at `e` is the node's `path` relative to `e`. -/
+theorem etree_paths_agree (e : Node) (ip : List Nat) (steps : List Step)
+    (h : (ip, steps) ∈ etreeIterPaths e) : pathOf e ⟨ip, .self⟩ = some steps := by
+  obtain ⟨rest, srest, h1, h2, h3⟩ := iterPaths_sound e [] [] (ip, steps) h
+  simp only [List.nil_append] at h1 h3
+  have h1' : rest = ip := h1.symm
+  have h3' : srest = steps := h3.symm
+  subst h1' h3'
+  have hs := pathToWith_isSome sameKind rest e
+  simp only [pathTo] at h2
+  rw [h2] at hs
+  cases hd : descend e rest with
+  | none => rw [hd] at hs; simp at hs
+  | some n => simp only [pathOf, pathOfWith, h2, hd]
+
+/-- `etree_iter_paths` reaches every element, comment and processing instruction of the tree
+(text is not an ElementTree node). -/
+theorem etree_paths_complete (e : Node) (ip : List Nat) (m : Node)
+    (hd : descend e ip = some m) (hm : m ≠ .text) : ∃ steps, (ip, steps) ∈ etreeIterPaths e := by
+  obtain ⟨st, h⟩ := iterPaths_complete e [] [] ip m hd hm
+  exact ⟨st, by simpa [etreeIterPaths] using h⟩
+
+/-- every path yielded by `etree_iter_paths`, evaluated from the element, selects its node -/
+theorem etree_paths_select_self (e : Node) (ip : List Nat) (steps : List Step)
+    (h : (ip, steps) ∈ etreeIterPaths e) : evalSteps e steps = [⟨ip, .self⟩] := by
+  have hp := etree_paths_agree e ip steps h
+  exact path_selects_self_node e ip steps hp
+
+/-! ### the pinned tree (05acc20) — defects F14a / F14e, repaired by `fix:` commits of branch fix-c14
+
+`pathOfPinned` is the transcription of the pinned `get_child_position`.  The full statement
+(`path_selects_self` for `pathOfPinned`) is false; it holds where `pinnedSafe` holds. -/
+
+/-- PARTIAL (pinned tree only): the pinned generator is correct for every node on whose path no
+PI has a sibling PI with another target and no no-namespace element has a sibling PI named like
+it (`pinnedSafe`).  Full statement: the same without `hs` — false, see the counter-examples. -/
+theorem path_selects_self_pinned_partial (top : Node) (r : Ref) (steps : List Step) (hw : top.wf = true)
+    (hs : pinnedSafe top r = true) (hp : pathOfPinned top r = some steps) : evalSteps top steps = [r] :=
+  evalSteps_pathOfWith pinnedKind top r steps hw hs hp
+
+/-- the hypotheses of the partial theorem are satisfiable on a non-trivial tree (test) -/
+example :
+    let t := docNode [.elem ⟨"", "r"⟩ [] [(⟨"", "a"⟩, "1")] [.pi "x", .elem ⟨"", "a"⟩ [] [] [], .pi "x", .text, .elem ⟨"", "a"⟩ [] [] []]]
+    t.wf = true ∧ pinnedSafe t ⟨[0, 2], .self⟩ = true ∧
+    pathOfPinned t ⟨[0, 2], .self⟩ = some [.child ⟨"", "r"⟩ 1, .pi "x" 2] := by decide
+
+/-- F14a, kernel-checked on `<r><?x?><?y?><?x?></r>`: the pinned generator numbers the PIs 1, 2, 3
+whatever their target; the paths of the second and third PI select nothing; the repaired
+generator gives (x)[1], (y)[1], (x)[2]. -/
+theorem pinned_fails_pi_targets :
+    let t := docNode [.elem ⟨"", "r"⟩ [] [] [.pi "x", .pi "y", .pi "x"]]
+    pathOfPinned t ⟨[0, 1], .self⟩ = some [.child ⟨"", "r"⟩ 1, .pi "y" 2] ∧
+    evalSteps t [.child ⟨"", "r"⟩ 1, .pi "y" 2] = [] ∧
+    pathOfPinned t ⟨[0, 2], .self⟩ = some [.child ⟨"", "r"⟩ 1, .pi "x" 3] ∧
+    evalSteps t [.child ⟨"", "r"⟩ 1, .pi "x" 3] = [] ∧
+    pinnedSafe t ⟨[0, 1], .self⟩ = false ∧
+    pathOf t ⟨[0, 1], .self⟩ = some [.child ⟨"", "r"⟩ 1, .pi "y" 1] ∧
+    pathOf t ⟨[0, 2], .self⟩ = some [.child ⟨"", "r"⟩ 1, .pi "x" 2] := by decide
+
+/-- F14a, wrong node: on `<r><?x?><?y?><?y?><?x?></r>` … with three like-named PIs the pinned
+path of one PI selects another one. -/
+theorem pinned_fails_wrong_node :
+    let t := docNode [.elem ⟨"", "r"⟩ [] [] [.pi "y", .pi "x", .pi "x", .pi "x"]]
+    pathOfPinned t ⟨[0, 1], .self⟩ = some [.child ⟨"", "r"⟩ 1, .pi "x" 2] ∧
+    evalSteps t [.child ⟨"", "r"⟩ 1, .pi "x" 2] = [⟨[0, 2], .self⟩] := by decide
+
+/-- F14e, kernel-checked on `<r><?a?><a/></r>`: the pinned generator counts the PI named `a` as a
+like-named sibling of the element `a`; the path `/Q{}r[1]/Q{}a[2]` selects nothing. -/
+theorem pinned_fails_pi_named_like_element :
+    let t := docNode [.elem ⟨"", "r"⟩ [] [] [.pi "a", .elem ⟨"", "a"⟩ [] [] []]]
+    pathOfPinned t ⟨[0, 1], .self⟩ = some [.child ⟨"", "r"⟩ 1, .child ⟨"", "a"⟩ 2] ∧
+    evalSteps t [.child ⟨"", "r"⟩ 1, .child ⟨"", "a"⟩ 2] = [] ∧
+    pinnedSafe t ⟨[0, 1], .self⟩ = false ∧
+    pathOf t ⟨[0, 1], .self⟩ = some [.child ⟨"", "r"⟩ 1, .child ⟨"", "a"⟩ 1] := by decide
+
+/-- on the pinned tree the two generators disagree (F14a): `etree_iter_paths` already counted per
+target -/
+theorem pinned_generators_disagree :
+    let e := Node.elem ⟨"", "r"⟩ [] [] [.pi "x", .pi "y", .pi "x"]
+    ([2], [Step.pi "x" 2]) ∈ etreeIterPaths e ∧ pathOfPinned e ⟨[2], .self⟩ = some [.pi "x" 3] := by decide
 
 end EPV.C14
